@@ -141,9 +141,14 @@ impl Handler for H12 {
 fn gen_world(rng: &mut Rng, seed: u64) -> World {
     // a quarter of the worlds are "rack-heavy": 5..8 nodes in one or two datacenters with two racks each and
     // replication factors above the rack count (racks repeat among the replicas)
-    let rack_heavy = rng.chance(1, 4);
-    let n = if rack_heavy { rng.usize(5, 8) } else { rng.usize(1, 6) };
-    let dcs = if rack_heavy { rng.usize(1, 2) } else { rng.usize(1, 3.min(n)) };
+    // an eighth are "sparse": three datacenters of which one or two hold NO replica of the keyspace, a third
+    // of the nodes down, no datacenter preference or failover permitted (requests must find the replicas that
+    // lie behind a replica-less datacenter)
+    let kind = rng.below(8);
+    let rack_heavy = kind < 2;
+    let sparse = kind == 2;
+    let n = if rack_heavy { rng.usize(5, 8) } else if sparse { rng.usize(4, 6) } else { rng.usize(1, 6) };
+    let dcs = if rack_heavy { rng.usize(1, 2) } else if sparse { 3 } else { rng.usize(1, 3.min(n)) };
     let all_scylla = rng.chance(2, 3);
     let mut nodes = Vec::new();
     for i in 0..n {
@@ -160,12 +165,23 @@ fn gen_world(rng: &mut Rng, seed: u64) -> World {
             features: Features { tablets: all_scylla, ..Default::default() },
         });
     }
-    let mut up: Vec<bool> = (0..n).map(|_| rng.chance(5, 6)).collect();
+    let mut up: Vec<bool> = (0..n).map(|_| if sparse { rng.chance(2, 3) } else { rng.chance(5, 6) }).collect();
     up[0] = true; // the contact point
     let strategy = if rack_heavy {
         let mut m = BTreeMap::new();
         for d in 0..dcs {
             m.insert(format!("dc{d}"), rng.usize(2, 4));
+        }
+        Strat::Nts(m)
+    } else if sparse {
+        let mut m = BTreeMap::new();
+        let empty_a = rng.below(3);
+        let empty_b = rng.below(3);
+        for d in 0..3u64 {
+            m.insert(format!("dc{d}"), if d == empty_a || (d == empty_b && rng.bool()) { 0 } else { rng.usize(1, 2) });
+        }
+        if m.values().all(|v| *v == 0) {
+            m.insert("dc2".into(), 1);
         }
         Strat::Nts(m)
     } else if dcs > 1 && rng.chance(2, 3) {
@@ -180,7 +196,7 @@ fn gen_world(rng: &mut Rng, seed: u64) -> World {
     } else {
         Strat::Simple(rng.usize(1, 3))
     };
-    let prefer = rng.below(3);
+    let prefer = if sparse && rng.bool() { 0 } else { rng.below(3) };
     let prefer_dc = if prefer > 0 { Some(format!("dc{}", rng.below(dcs as u64))) } else { None };
     let prefer_rack = if prefer == 2 { Some(format!("r{}", rng.below(3))) } else { None };
     // tablets: split the ring into 2..6 ranges, replicas among sharded nodes
@@ -207,7 +223,7 @@ fn gen_world(rng: &mut Rng, seed: u64) -> World {
             lo = b;
         }
     }
-    World { nodes, up, strategy, prefer_dc, prefer_rack, failover: rng.bool(), pool: (rng.chance(2, 3), rng.usize(1, 2)), tablets, seed }
+    World { nodes, up, strategy, prefer_dc, prefer_rack, failover: sparse || rng.bool(), pool: (rng.chance(2, 3), rng.usize(1, 2)), tablets, seed }
 }
 
 /// Polls the session's published cluster state until it answers for `token` of a tablet table.
